@@ -24,7 +24,11 @@ def controlsModel (root : Str) (lists : List Str) (rows : List Cells) (settings 
      | .error w' => unsup w'
      | .ok _ => Json.mkObj [("outcome", "error"), ("err", Json.mkObj [("kind", "controls"), ("what", Json.str w)])])
   | .ok cs =>
-    let base := formModel root lists (rows.map fun r => (prep r).1) settings
+    let rows' := rows.map fun r => (prep r).1
+    if (match formOut root lists rows' settings with | .ok o => emptySecL o.items | .error _ => false) then
+      Json.mkObj [("outcome", "error"), ("err", Json.mkObj [("kind", "emptySection")])]
+    else
+    let base := formModel root lists rows' settings
     match base.getObjVal? "outcome" with
     | .ok (.str "ok") =>
       base.setObjVal! "ctlAttrs" (ctlsToJson cs)
